@@ -330,6 +330,8 @@ def run(prog, rep, tier):
     rep.floor('R13.5', nsite, 2, 'constructions of a block decompressor')
     from .c10 import r10_4
     r10_4(prog, rep, 'R13.5')     # ... and that helper does seek on every successful return
+    from .c10 import r10_5
+    r10_5(prog, rep, 'R13.7')     # a zero count is never an error for an empty request (buffers of any size)
 
     # ---------------- R13.6 a stream that delivered exactly its 4 MiB is still handed to the decoder (its end marker may arrive in a later read)
     fs = one_body(prog, rep, 'R13.6', 'mla', adt='layers::compress::CompressionLayerFailSafeReader', name='read', trait='std::io::Read')
